@@ -17,6 +17,7 @@ failing input is a VIOLATION."""
 
 import concurrent.futures as cf
 import itertools
+import json
 import os
 import random
 import shutil
@@ -25,6 +26,7 @@ import ufl
 import ufl.classes as C
 from ufl.classes import ComponentTensor, FixedIndex, Index, Indexed, IndexSum, ListTensor, MultiIndex, Zero
 
+import C05_cplx
 import C05_gen as G5
 import coqgen
 import pyden
@@ -48,6 +50,8 @@ Hypothesis im_im : forall x, im (im x) = z0.
 Hypothesis im_abs : forall x, im (abs x) = z0.
 Hypothesis abs_0 : abs z0 = z0.
 Hypothesis conj_0 : conj z0 = z0.
+Hypothesis conj_1 : conj z1 = z1.
+Hypothesis conj_opp : forall x, conj (opp x) = opp (conj x).
 Hypothesis re_0 : re z0 = z0.
 Hypothesis im_0 : im z0 = z0.
 Hypothesis conj_add : forall x y, conj (add x y) = add (conj x) (conj y).
@@ -75,7 +79,8 @@ Ltac cplx_simp :=
 Ltac c_cplx := norm_goal;
   first [ reflexivity
         | cplx_simp; fin
-        | cplx_simp; repeat (rewrite conj_add || rewrite conj_mul || rewrite conj_0); cplx_simp; fin ].
+        | cplx_simp; repeat (rewrite conj_add || rewrite conj_mul || rewrite conj_opp || rewrite conj_0 || rewrite conj_1);
+          cplx_simp; fin ].
 Ltac c_cond := norm_goal; rewrite ?cond_same; fin.
 Ltac pow_norm :=
   rewrite ?pow_0, ?pow_1;
@@ -214,7 +219,8 @@ def raw_value(req, env, rho, c, memo):
 
 
 def numeric_mismatch(req, trials, seed):
-    """search for operand values / index values / component with den(out) != raw value"""
+    """search for operand values / index values / component with den(out) != raw value: first over exact
+    rationals (py/pyden.py), then over complex numbers (py/C05_cplx.py; conj/real/imag are visible there)"""
     out = req.out
     rng = random.Random(seed)
     counts = set()
@@ -222,9 +228,14 @@ def numeric_mismatch(req, trials, seed):
         index_counts(o, counts)
     counts.update(i.count() for i in req.extra_indices)
     comps = list(itertools.product(*[range(d) for d in out.ufl_shape]))
+    dead = False
     for t in range(trials):
+        if dead:
+            break
         env = pyden.Env(nv=2, order=1, seed=rng.randrange(10**9), positive=True)
         for _ in range(2):
+            if dead:
+                break
             rho = {c: rng.randrange(2) for c in counts}
             for c in comps:
                 memo = {}
@@ -235,12 +246,62 @@ def numeric_mismatch(req, trials, seed):
                     continue
                 except (pyden.Unsupported, ValueError, OverflowError, KeyError, TypeError, IndexError,
                         RecursionError, AttributeError):
-                    return None
+                    dead = True
+                    break
                 if not a.close_to(b):
                     return {"component": list(c), "free_index_values": {f"Index({k})": v for k, v in rho.items()},
                             "implementation_value": str(a.value()), "expected_value": str(b.value()),
                             "terminal_values": {str(k): str(v.value()) for k, v in list(env.cache.items())[:30]}}
+    # complex stage
+    for t in range(max(4, trials // 4)):
+        env = C05_cplx.CEnv(seed=rng.randrange(10**9))
+        rho = {c: rng.randrange(2) for c in counts}
+        for c in comps:
+            try:
+                raw = req.pycraw(tuple(c)) if req.pycraw is not None else (req.pyraw() if req.pyraw else None)
+                if raw is None:
+                    return None
+                a = C05_cplx.ceval(out, env, rho, c)
+                b = C05_cplx.ceval(raw, env, rho, () if req.pycraw is not None else c)
+            except (ZeroDivisionError, OverflowError):
+                continue
+            except (C05_cplx.Unsupported, pyden.Unsupported, ValueError, KeyError, TypeError, IndexError,
+                    RecursionError, AttributeError):
+                return None
+            if not C05_cplx.close(a, b):
+                return {"component": list(c), "free_index_values": {f"Index({k})": v for k, v in rho.items()},
+                        "implementation_value": str(a), "expected_value": str(b), "values": "complex",
+                        "terminal_values": {str(k): str(v) for k, v in list(env.cache.items())[:30]}}
     return None
+
+
+def quick_screen(req, seed):
+    """cheap numeric pre-screen (complex values, 2 trials): requests whose result looks wrong are compiled in
+    small files of their own, so that their failing obligations do not force re-checking the big shards.
+    Coq stays the arbiter: a suspect whose obligations are proved is not reported."""
+    if attr_mismatch(req):
+        return True
+    out = req.out
+    rng = random.Random(seed)
+    counts = set()
+    for o in req.operands + [out]:
+        index_counts(o, counts)
+    counts.update(i.count() for i in req.extra_indices)
+    try:
+        for _ in range(2):
+            env = C05_cplx.CEnv(seed=rng.randrange(10**9))
+            rho = {c: rng.randrange(2) for c in counts}
+            for c in itertools.product(*[range(d) for d in out.ufl_shape]):
+                raw = req.pycraw(tuple(c)) if req.pycraw is not None else (req.pyraw() if req.pyraw else None)
+                if raw is None:
+                    return False
+                a = C05_cplx.ceval(out, env, rho, c)
+                b = C05_cplx.ceval(raw, env, rho, () if req.pycraw is not None else c)
+                if not C05_cplx.close(a, b):
+                    return True
+    except Exception:  # noqa: BLE001
+        return False
+    return False
 
 
 def expected_attrs(req):
@@ -485,6 +546,38 @@ def coqc_scratch(rel, timeout=900):
     return vlib.CoqResult(ap, rc == 0, out, err, time.time() - t0)
 
 
+def replay(run, data):
+    """bin/check C05 --replay <file>: re-run the request named in a replay file on the current tree"""
+    label = data.get("request")
+    P, reqs = G5.all_requests("thorough", random.Random(1000))
+    todo = [r for r in reqs if r.label == label]
+    if not todo:
+        print(f"replay: no request labelled {label!r} in the enumeration")
+        return 2
+    bad = 0
+    for req in todo:
+        before = [(o, o.ufl_operands if not o._ufl_is_terminal_ else None) for o in req.operands]
+        req.run()
+        if req.exc is None and has_cycle(req.out):
+            for o, ops in before:
+                if ops is not None:
+                    o.ufl_operands = ops
+            print(f"replay {label}: FAILS - the call corrupts an operand (cyclic operand graph)")
+            bad += 1
+        elif req.must_raise:
+            print(f"replay {label}: " + ("ok - rejected" if req.exc is not None else f"FAILS - accepted: {req.out}"))
+            bad += req.exc is None
+        elif req.exc is not None:
+            print(f"replay {label}: FAILS - raises {type(req.exc).__name__}: {req.exc}")
+            bad += 1
+        else:
+            w = attr_mismatch(req) or (numeric_mismatch(req, 60, 0) if req.value is not False else None)
+            print(f"replay {label}: result {str(req.out)[:200]}")
+            print("  " + (f"FAILS - {json.dumps(w, default=str)[:600]}" if w else "no mismatch found (numeric oracle)"))
+            bad += bool(w)
+    return 1 if bad else 0
+
+
 def main(run):
     rng = random.Random(1000 + run.seed)
     known = {k["id"]: k for k in vlib.load_known_findings("C05")}
@@ -496,6 +589,7 @@ def main(run):
         rng.shuffle(reqs)          # construction order influences Index counters / operand order
     known_hits = {}
     cases = []
+    suspects = []
     stats = {}
     nviol = 0
 
@@ -588,7 +682,11 @@ def main(run):
                 continue
             cases.append(RCase(f"q{n}", req, value=bool(value), t3=False))  # defect not (or no longer) present
             continue
-        cases.append(RCase(f"q{n}", req, value=bool(value)))
+        rc = RCase(f"q{n}", req, value=bool(value))
+        if value and quick_screen(req, run.seed + n):
+            suspects.append(rc)
+        else:
+            cases.append(rc)
 
     for c in cases[:: max(1, len(cases) // 10)]:
         run.sample({"request": c.req.label, "result": str(c.req.out)[:160]})
@@ -599,6 +697,9 @@ def main(run):
     coqgen.HEADER = "Require Import UFLV.Props.C05_model.\n" + header0
     try:
         failing = coqgen.emit_and_check(run, "C05", cases, timeout=900, extra_header=EXTRA_HEADER)
+        run.extra["suspects_from_numeric_prescreen"] = [c.req.label for c in suspects][:50]
+        failing += coqgen.emit_and_check(run, "C05s", suspects[:48], timeout=300, extra_header=EXTRA_HEADER,
+                                         shards=max(1, min(vlib.NCPU, len(suspects[:48]))))
     finally:
         coqgen.HEADER = header0
     seen = set()
@@ -615,6 +716,8 @@ def main(run):
             violation(req, "error behaviour of the implementation differs from the model (tie T3): the request "
                            "is rejected by the implementation but accepted by the Gallina model, or vice versa",
                       extra, False)
+            continue
+        if nviol > 12:
             continue
         am = attr_mismatch(req)
         w = am or numeric_mismatch(req, 40 if run.tier == "quick" else 200, run.seed)
